@@ -35,6 +35,11 @@ CHECKS = {
         technique="TLA+ contract HardenedEnvContract (Effective + PassThrough) with the filter-then-append design checked by TLC for all environments <= MaxLen; TLC-generated and hostile environments installed via os.StartProcess, GetHardenedEnv's result and the raw environment received by the real `go list` children of sfw (go shim) validated by TLC",
         text="TLC proves the design meets the contract for every environment of up to 3 (thorough 4) entries over a pool of guarded, look-alike, mixed-case, duplicate and malformed entries; the real function is run under those and under seeded hostile environments with duplicates preserved, and the environment that actually reaches the Go tool from sfw check/diff/index/scan (--deps) is captured by a `go` shim; every observation is validated by TLC.",
         note=TRUST + "; 'unrelated' = key not starting with GO/CGO; the Go runtime's own de-duplication of os.Environ() is taken as given"),
+    "C14": dict(
+        level="model_checking", ref="3/C14",
+        technique="TLA+ contract SandboxContract (LockedDown, ParentsFirst, RequestsMounted, reserved/escape rejection) and design model Sandbox (mounts as character strings, stable string sort) checked by TLC for all request sequences; the real unexported generateSpec/prepareMountPoints run through an in-package overlay test on a materialised path universe, results validated by TLC",
+        text="TLC exhausts request sequences (<=3, thorough <=4) over a universe where string order differs from path order and shows the sorted mount list always mounts parents first and rejects reserved paths; the real functions are called for ~1000 (thorough ~6000) request sets built from nested, duplicated, relative, symlinked, '..'-spelled, reserved and under-reserved paths, and every returned specification / error is validated by TLC against the contract.",
+        note=TRUST + "; 'collides' read as equal-after-cleaning to a reserved path; runsc enforcement itself is out of scope (absent here)"),
 }
 
 NOT_YET = {}
